@@ -140,8 +140,7 @@ def invalidating_sites(ctx, b, fieldnames, depth=2):
                     # helper must replace on every return path
                     cfl = ctx.flow(cb)
                     allp = all(must_pass_flags(cb, cfl, 0, cb.returns(), [s[0] for s in sub]) for _ in [0])
-                    releases = reaches(ctx.facts, cb, r"assume_init_drop$|core::ptr::drop_in_place$|assume_init_read$", 2)
-                    out.append((bb, cb.path, allp and releases))
+                    out.append((bb, cb.path, allp))
     return out
 
 
